@@ -111,6 +111,7 @@ def gen_cases(tier, seed):
     # added after two seeded changes were missed: preference vectors of tiny magnitude (the cosines depend on their direction only) and
     # very wide matrices (the numerical-rank tolerance of Aligned-MTL must not grow with the number of columns)
     cases.append(dict(kind="special", what="tiny-pref"))
+    cases.append(dict(kind="special", what="buffer-reuse"))
     for k_ in range(2):
         cases.append(dict(kind="special", what="wide", k=k_))
     for n in range(1, 6):
@@ -400,6 +401,36 @@ def _run_special(acc, case):
                     if not (err <= tol):
                         acc.viol.append(dict(sig="config-depends-on-the-magnitude-of-the-preference-vector", cls=f"tinypref:{dtype}",
                                              msg=f"ConFIG J={J.tolist()} {dtype}: pref {mag}*{base.tolist()} gives {x.tolist()}, pref {base.tolist()} gives {ref.tolist()}"))
+        return
+    if case["what"] == "buffer-reuse":
+        # one instance, one pre-allocated Jacobian buffer re-filled in place (a training loop): every call must return what a new
+        # instance returns on a new tensor holding the same values (added after a seeded change: AlignedMTL's balance transformation
+        # cached on the identity of the matrix object)
+        from torchjd.aggregation import IMTLG
+
+        mats = [np.array([[2.0, -1.0, 0.5], [0.5, 1.0, -1.0], [1.0, 1.0, 2.0]]), np.array([[1.0, 0.0, 3.0], [0.0, -2.0, 1.0], [1.0, 1.0, 0.0]]),
+                np.array([[0.5, 0.5, 0.5], [-1.0, 2.0, 0.0], [3.0, 0.0, -1.0]]), np.array([[2.0, -1.0, 0.5], [0.5, 1.0, -1.0], [1.0, 1.0, 2.0]]) * 7.0]
+        for dtype in ("float64", "float32"):
+            dt = getattr(torch, dtype)
+            mk = {"imtlg": lambda: IMTLG(), "config": lambda: ConFIG(), "config|p": lambda: ConFIG(pref_vector=torch.tensor([1.0, 2.0, 3.0], dtype=dt)),
+                  "aligned": lambda: AlignedMTL(), "aligned|p": lambda: AlignedMTL(pref_vector=torch.tensor([3.0, 1.0, 2.0], dtype=dt))}
+            for name, new in mk.items():
+                agg, buf = new(), torch.zeros(3, 3, dtype=dt)
+                for step, J in enumerate(mats + mats[:1]):
+                    buf.copy_(torch.tensor(J, dtype=dt))
+                    acc.execs += 2
+                    try:
+                        x = agg(buf).double().numpy()
+                        y = new()(torch.tensor(J, dtype=dt)).double().numpy()
+                    except Exception as e:
+                        acc.viol.append(dict(sig=f"exception:{name}:{type(e).__name__}", msg=f"{name} {dtype} buffer step {step}: {e!r}"[:300]))
+                        break
+                    acc.nontriv += 1
+                    acc.outcomes.add(f"br:{name}:{dtype}:{step}")
+                    if x.tobytes() != y.tobytes():
+                        acc.viol.append(dict(sig=f"stateful-on-refilled-buffer:{name.split('|')[0]}", cls=f"buffer:{name}:{dtype}",
+                                             msg=f"{name} {dtype}: step {step} on a re-filled buffer holding {J.tolist()} gives {x.tolist()}, a new instance on a new tensor {y.tolist()}"))
+                        break
         return
     # wide: condition numbers 10 and 3, 100 000 and 300 000 columns: re-balanced rows orthogonal and of length sigma_min
     k = case["k"]
